@@ -216,6 +216,28 @@ func c10(c *evid.Ctx) {
 					nb[len(nb)-1] ^= byte(1 + r.Intn(255))
 					vs = append(vs, variant{"token of A used by a neighbouring address", &net.UDPAddr{IP: nb, Port: port()}, str(tokA), false})
 				}
+				{
+					// the other family's addresses that embed A's bytes: an IPv4 address a.b.c.d reappears
+					// in abcd::, ::a.b.c.d, 64:ff9b::a.b.c.d and 2002:abcd::; an IPv6 address shares its
+					// first or last four bytes with two IPv4 addresses. All of them are other hosts.
+					var rel []net.IP
+					if a4 := A.IP.To4(); a4 != nil {
+						left := make(net.IP, 16)
+						copy(left, a4)
+						compat := make(net.IP, 16)
+						copy(compat[12:], a4)
+						nat64 := net.ParseIP("64:ff9b::")
+						copy(nat64[12:], a4)
+						sixto4 := make(net.IP, 16)
+						sixto4[0], sixto4[1] = 0x20, 0x02
+						copy(sixto4[2:], a4)
+						rel = []net.IP{left, compat, nat64, sixto4}
+					} else {
+						rel = []net.IP{append(net.IP(nil), A.IP[:4]...), append(net.IP(nil), A.IP[12:]...)}
+					}
+					x := rel[r.Intn(len(rel))]
+					vs = append(vs, variant{"token of A used by an address of the other family that embeds A's bytes", &net.UDPAddr{IP: x, Port: port()}, str(tokA), false})
+				}
 				flips := 6
 				if ci%5 == 0 || !c.Quick() {
 					flips = 8 * len(tokA)
